@@ -801,17 +801,25 @@ pub fn gen_text_filter(rng: &mut Prng, i: usize, allow_replace: bool) -> FSpec {
     FSpec::Text { action: action.to_string(), content }
 }
 
-/// chains of 0..3 filters
-pub fn gen_filters(rng: &mut Prng, allow_text_replace: bool, nasty_values: bool) -> Vec<FSpec> {
-    let k = match rng.below(20) {
+/// chains of 0..=max filters (max 3 by default; C04 asks for 5 so that text stages sit between html stages)
+pub fn gen_filters_n(rng: &mut Prng, allow_text_replace: bool, nasty_values: bool, max: usize) -> Vec<FSpec> {
+    let mut k = match rng.below(20) {
         0 => 0,
         1..=10 => 1,
         11..=16 => 2,
         _ => 3,
     };
+    if max > 3 && rng.chance(1, 4) {
+        k = rng.range(3, max);
+    }
+    let text_share = if k >= 3 { 2 } else { 1 };
     (0..k)
-        .map(|i| if rng.chance(4, 5) { gen_html_filter(rng, i, nasty_values) } else { gen_text_filter(rng, i, allow_text_replace) })
+        .map(|i| if rng.below(5) >= text_share { gen_html_filter(rng, i, nasty_values) } else { gen_text_filter(rng, i, allow_text_replace) })
         .collect()
+}
+
+pub fn gen_filters(rng: &mut Prng, allow_text_replace: bool, nasty_values: bool) -> Vec<FSpec> {
+    gen_filters_n(rng, allow_text_replace, nasty_values, 3)
 }
 
 pub fn gen_headers(rng: &mut Prng) -> Vec<[String; 2]> {
